@@ -155,6 +155,7 @@ type Unit struct {
 	witnessHint types.Type
 	witnessTyp  types.Type
 	curPos      token.Pos
+	errGlobals  []T
 }
 
 func (x *Unit) fresh(prefix string, srt Sort) T {
